@@ -251,6 +251,8 @@ class Interp:
             return int(e['cv']) if e.get('cv') is not None else _undef('literal')
         if k == 'str':
             return bytes(e.get('bytes') or [])
+        if k == 'flit':
+            return float(e['v'])
         if k == 'initlist':
             vals = [self.ev(a, env, members) for a in (e.get('args') or e.get('inits') or [])]
             tn = (e.get('t') or '').replace('struct ', '').replace('const ', '').strip()
@@ -265,6 +267,20 @@ class Interp:
             if e.get('cv') is not None and strip(e) is not None and strip(e).get('k') not in ('ref', 'member'):
                 return int(e['cv'])
             v = self.ev(e['e'], env, members)
+            if isinstance(v, float):
+                if e.get('ck') == 'FloatingToIntegral':
+                    w_, sg_ = width(e.get('t'))
+                    if v != v or not (-(1 << (w_ - 1)) if sg_ else 0) <= int(v) <= ((1 << (w_ - 1)) - 1 if sg_ else (1 << w_) - 1):
+                        raise UndefinedBehaviour('conversion of %r to %s is out of range' % (v, e.get('t')))
+                    return int(v)
+                if e.get('ck') == 'FloatingToBoolean':
+                    return 1 if v != 0.0 else 0
+                if e.get('ck') == 'FloatingCast' and 'float' in (e.get('t') or '') and 'double' not in (e.get('t') or ''):
+                    import struct as _st
+                    return _st.unpack('<f', _st.pack('<f', v))[0]
+                return v
+            if isinstance(v, int) and e.get('ck') == 'IntegralToFloating':
+                return float(v)
             if not isinstance(v, int):
                 return v.cast_to(e.get('t')) if hasattr(v, 'cast_to') else v
             if e.get('ck') in ('LValueToRValue', 'NoOp'):
@@ -392,6 +408,8 @@ class Interp:
             l = self.ev(e['l'], env, members)
             r = self.ev(e['r'], env, members)
             if op in ('==', '!=', '<', '<=', '>', '>='):
+                if isinstance(l, (int, float)) and isinstance(r, (int, float)) and (isinstance(l, float) or isinstance(r, float)):
+                    return 1 if {'==': l == r, '!=': l != r, '<': l < r, '<=': l <= r, '>': l > r, '>=': l >= r}[op] else 0
                 if not (isinstance(l, int) and isinstance(r, int)):
                     # model objects (pointers to structs): identity; a null pointer is the integer 0
                     same = l is r or (getattr(l, 'value_eq', False) and getattr(r, 'value_eq', False) and l == r) or \
@@ -441,7 +459,7 @@ class Interp:
                 return -(1 << (w - 1)) if sg else 0
             if name in ('memcpy', 'memmove', '__builtin_memcpy', '__builtin_memmove') and self.memory is not None and len(args) == 3 \
                     and isinstance(args[0], tuple) and args[0] and args[0][0] == 'addrof' and isinstance(args[1], int) and isinstance(args[2], int):
-                w_, _s = width(args[0][2])
+                w_, _sgn0 = width(args[0][2])
                 if args[2] != w_ // 8:
                     raise Unsupported('memcpy of %d bytes into a %d-byte local' % (args[2], w_ // 8))
                 env[args[0][1]] = wrap(self.load(args[1], args[2]), args[0][2])
@@ -501,6 +519,9 @@ class Interp:
                         el = arr_[ix]
                         if isinstance(el, (str, int)):
                             return int(el)
+                        if isinstance(el, dict) and 'bits' in el and len(el['bits']) == 16:
+                            import struct as _st
+                            return _st.unpack('<d', _st.pack('<Q', int(el['bits'], 16)))[0]
                         raise Unsupported('element of table %s' % st_['name'])
             bv0 = None
             try:
@@ -532,7 +553,7 @@ class Interp:
             t_ = (p_.get('t') or '').strip()
             if not t_.endswith('&') or t_.endswith('&&') or t_.startswith('const ') and '*' not in t_:
                 continue
-            if p_['id'] not in env2 or not isinstance(env2[p_['id']], int):
+            if p_['id'] not in env2 or not isinstance(env2[p_['id']], (int, float)):
                 continue
             a0 = strip(a_)
             if a0 is None or a0.get('k') not in ('ref', 'member'):
@@ -601,6 +622,20 @@ class Interp:
         return v
 
     def arith(self, op, l, r, e):
+        if isinstance(l, float) or isinstance(r, float):
+            # IEEE-754 binary64 arithmetic (Python floats): one correctly rounded operation each, as SSE2 does
+            l, r = float(l), float(r)
+            if op == '+':
+                return l + r
+            if op == '-':
+                return l - r
+            if op == '*':
+                return l * r
+            if op == '/':
+                if r == 0.0:
+                    return float('nan') if l == 0.0 or l != l else (float('inf') if (l > 0) == (str(r)[0] != '-') else float('-inf'))
+                return l / r
+            raise Unsupported('floating operator ' + op)
         if op == '+':
             return l + r
         if op == '-':
